@@ -97,6 +97,13 @@ def check(model, rep, tier):
             {'counterexample': cex}, line=fi.node.lineno,
             witness='a backend restores non-output entries after running both '
             'branches')
+  o, cex = implies(inp.f, ~NL & ~G)
+  rep.check(o, 'SETSEL', '%s:input_only-never-nonlocal-or-global' % fi.site,
+            'a variable declared nonlocal or global is visible after the function '
+            'returns, whatever the liveness inside the function says: it must be '
+            'an output of every statement that changes it',
+            {'counterexample': cex}, line=fi.node.lineno,
+            witness='def g(): nonlocal x; if c: x = x + 1  -- nouts must count x')
   o, cex = implies(inp.f, ~C)
   rep.check(o, 'SETSEL', '%s:input_only-never-composite' % fi.site,
             'attributes and keys are visible through the object after the '
